@@ -88,6 +88,29 @@ class Site:
         return "%s|%s#%d" % (strip_generics(self.body.path), strip_generics(self.call.callee).split("::")[-1], ordinal)
 
 
+def _only_names_the_culprit(b, c):
+    """The result of the search `c` is only tested for Some/None, and every path from its Some arm returns Err."""
+    from pvrules.rules import rejecting
+    res = c.result_term()
+    sw = []
+    for bi in b.reachable_blocks():
+        si = b.switch_info(bi)
+        if si and si[0][0] == "discr" and peel(si[0][1], transparent=[]) == res:
+            sw.append(si)
+    if len(sw) != 1:
+        return False
+    some_t = [t for v, t in sw[0][1] if v == 1]
+    if not some_t or not rejecting(b, some_t[0]):
+        return False
+    # no other use of the result than that test and the Some payload below it
+    for x in b.calls():
+        if x is c:
+            continue
+        if any(contains_term(a, res) for a in x.args) and x.bb not in b.reach(some_t[0]):
+            return False
+    return True
+
+
 def classify(facts, body, src):
     """Classify one unordered-iteration source call.  Returns Site with cls in
     {'insensitive', 'sorted', 'escapes-unsorted', 'unclassified'} and details."""
@@ -144,6 +167,10 @@ def classify(facts, body, src):
                     seqs.append((b, peel(c.args[0]), c))
                 else:
                     problems.append("extend of %s at %s" % (ty, c.span))
+            elif c.matches(["Iterator::find", "Iterator::position"]) and _only_names_the_culprit(b, c):
+                # `if let Some(x) = keys.find(|k| bad(k)) { return Err(..x..) }`: whether the call fails does not depend on the order, only which offending element the
+                # error names (exactly like `for k in keys { if bad(k) { return Err(..k..) } }`, whose early return is element-local)
+                pass
             elif c.matches(["Iterator::for_each", "Iterator::fold", "Iterator::try_for_each", "Iterator::try_fold", "Iterator::find", "Iterator::position",
                             "Iterator::find_map", "Iterator::last", "Iterator::nth", "Iterator::reduce"]):
                 problems.append("order-sensitive consumer %s at %s" % (strip_generics(c.callee).split("::")[-1], c.span))
